@@ -65,4 +65,44 @@ decreasing_by
   all_goals (try have := takeEscape_length h)
   all_goals omega
 
+/-- the path `with_path` hands to `normalize_path` since fix 7cae68c
+    (`path if path[0] == "/" else "/" + path`): `p` itself when it starts with `/`, otherwise `"/" + p`
+    (so `rooted "" = "/"`; `with_path` never normalises an empty argument, it has no dot) -/
+def rooted (p : Str) : Str :=
+  match p with
+  | 47 :: _ => p
+  | _ => 47 :: p
+
+theorem rooted_cons47 (r : Str) : rooted (47 :: r) = 47 :: r := rfl
+
+theorem rooted_nil : rooted [] = [47] := rfl
+
+theorem rooted_of_ne47 {c : Nat} (r : Str) (h : c ≠ 47) : rooted (c :: r) = 47 :: c :: r := by
+  unfold rooted
+  split
+  · rename_i heq; cases heq; exact absurd rfl h
+  · rfl
+
+/-- a rooted path starts with `/`, and what follows is `p` or `p` without its own leading `/` -/
+theorem rooted_eq_cons (p : Str) : ∃ r, rooted p = 47 :: r ∧ (p = 47 :: r ∨ p = r) := by
+  unfold rooted
+  split
+  · rename_i r; exact ⟨r, rfl, Or.inl rfl⟩
+  · exact ⟨p, rfl, Or.inr rfl⟩
+
+/-- the leading `/` `with_path` puts in front of a non-empty rootless path (a no-op after `rooted`) -/
+def ensureSlash (p1 : Str) : Str :=
+  match p1 with
+  | [] => p1
+  | 47 :: _ => p1
+  | _ => 47 :: p1
+
+/-- `URL.with_path` unfolded (non-`encoded` call), with `rooted`/`ensureSlash` named -/
+theorem withPath_eq (e : Env) (u : Url) (path : Str) (keepQuery keepFragment : Bool) :
+    withPath e u path false keepQuery keepFragment =
+      fromParts u.scheme u.netloc
+        (ensureSlash (if !u.netloc.isEmpty && mem 46 (q e Gen.PATH_QUOTER path)
+          then normalizePath (rooted (q e Gen.PATH_QUOTER path)) else q e Gen.PATH_QUOTER path))
+        (if keepQuery then u.query else []) (if keepFragment then u.fragment else []) := rfl
+
 end Yarl
